@@ -40,6 +40,7 @@ NORMALISATIONS = [
     'iceoryx2-log/log/src/{fail,log}.rs of the current tree with the logging statements deleted '
     '(control flow kept; message arguments not evaluated)',
     '`matches!(E, b".." | b"..")` on a slice is expanded to length + element comparisons generated from the literals (Verus mis-encodes byte-string patterns)',
+    'a `const NAME: T = e;` item inside a function body becomes `let NAME: T = e;` (Verus gives body-local consts spec mode)',
     'the per-unit rewrite table (regex => replacement with expected match count) listed under rewrites',
 ]
 
@@ -346,6 +347,7 @@ def _emit_fn(fb, src, out, meta):
     sig = _apply_rw(sig, fb.sig_rw, label + ' (signature)', meta['rewrites'])
     body = _split_debug_assert(body)
     body = _expand_bytes_matches(body)
+    body = re.sub(r'(?m)^([ \t]*)const ([A-Z_][A-Z0-9_]*)\s*:', r'\1let \2:', body)
     body = re.sub(r'(?m)^[ \t]*self\.verify_init\([^;]*\);[ \t]*\n', '', body)
     body = re.sub(r'(?m)^[ \t]*#\[(inline|allow|cfg_attr|deny)[^\]]*\]\s*\n', '', body)
     body = _apply_rw(body, fb.rw, label, meta['rewrites'])
